@@ -2,7 +2,8 @@
    ASCII only.  Statements only; proofs in P_ListOut.v (model: ListOut.v, the
    list commands l / lv / v / vv with every quiet level and pattern list).  The
    test / extract / print commands are covered by the byte scan of the check. *)
-From Lhasa Require Import Base Header Printf Glob ListOut P_ListOut.
+From Lhasa Require Import Base InputStream Header BasicReader Fs FsRun Reader Printf Glob ListOut CliFilter CliExtract CliMain
+  P_ListOut P_CliPrintable P_CliPrintMode.
 Local Open Scope N_scope.
 
 (* The sanitiser: its image is printable ASCII, it is the identity on printable text. *)
@@ -26,6 +27,94 @@ Example safe_output_example :
   safe_output [97; 27; 91; 50; 74; 255; 127; 10; 126; 32] = [97; 63; 91; 50; 74; 63; 63; 63; 126; 32].
 Proof. vm_compute. reflexivity. Qed.
 
+
+(* ====== the whole tool (t, x, e, dry runs, prompts, error paths, p) ====== *)
+(* C18 for the whole tool: archive-derived text printed by
+   the tool is printable ASCII only.  Statements only; proofs in P_CliPrintable.v,
+   P_CliPrintMode.v, examples in P_CliPrintableEx.v (model: CliMain.v lha_main =
+   src/main.c + src/extract.c + src/list.c + src/safe.c over the reader and
+   filesystem models).  Extends Properties_C18.v (list commands) to every command.
+
+   C18: "In list, verbose-list, test, extract, dry-run and print-header output,
+   every byte the tool writes that derives from archive contents - names, paths,
+   link targets, the compression-method field, owner names - is printable ASCII;
+   control characters and bytes of 0x7F and above are replaced by '?'. Apart from
+   file data deliberately dumped by 'p', the tool's output therefore consists
+   solely of printable ASCII plus its own newline, carriage-return and tab
+   characters." *)
+
+
+(* allowed_out b  :=  32 <= b < 127  \/  b = 10  \/  b = 13  \/  b = 9   (stdout)
+   allowed b      :=  32 <= b < 127  \/  b = 10                          (stderr: the tool
+                                                                          writes no CR / TAB there) *)
+
+(* Every command except 'p' without 'n', every archive, standard input and initial
+   filesystem: all of stdout is allowed_out, all of stderr is allowed.  The two
+   hypotheses concern text that is NOT archive-derived and that the tool echoes
+   verbatim: argv[0] in the help page, the archive name argv[2] and libc's strerror
+   text in "LHa: Error: <name> <strerror>". *)
+Theorem whole_tool_output_clean :
+  forall mktime junk localtime now stdin_kind strerror argv stdin s r,
+  data_free_invocation argv = true ->
+  (forall e, Forall printable (strerror e)) ->
+  Forall (Forall printable) argv ->
+  lha_main mktime junk localtime now stdin_kind strerror argv stdin s = Ok r ->
+  Forall allowed_out (cr_stdout r) /\ Forall allowed (cr_stderr r).
+Proof. exact lha_main_output_clean. Qed.
+
+(* Without any hypothesis on argv or strerror: the output is clean, or it is one of
+   the two fixed texts around an argv string (archive not opened / help page). *)
+Theorem whole_tool_output_cases :
+  forall mktime junk localtime now stdin_kind strerror argv stdin s r,
+  data_free_invocation argv = true ->
+  lha_main mktime junk localtime now stdin_kind strerror argv stdin s = Ok r ->
+  (Forall allowed_out (cr_stdout r) /\ Forall allowed (cr_stderr r)) \/
+  (exists mode o file filters e,
+     parse_main (tl argv) = Some (mode, o, file, filters) /\ fs_fopen_rb s file = OpenFail e /\
+     cr_stdout r = [] /\ cr_stderr r = open_error_text strerror file e) \/
+  (parse_main (tl argv) = None /\ cr_stdout r = help_text (progname_of argv) /\ cr_stderr r = []).
+Proof. exact lha_main_output_cases. Qed.
+
+(* which invocations are covered: l v t x e with any options, p with n *)
+Theorem covered_commands : forall c opts mode o,
+  In c [108; 118; 116; 120; 101] ->
+  (parse_command_line (c :: opts) = Some (mode, o) -> no_data_dump mode o = true) /\
+  (parse_command_line (45 :: c :: opts) = Some (mode, o) -> no_data_dump mode o = true).
+Proof. exact data_free_letters. Qed.
+
+(* Print mode: stdout is, member by member, a banner of printable ASCII and LF
+   followed by the member's data verbatim; stderr stays empty. *)
+Theorem print_mode_factor :
+  forall mktime junk localtime now stdin_kind strerror argv stdin s r o file filters,
+  parse_main (tl argv) = Some (MODE_PRINT, o, file, filters) -> o_dry_run o = false ->
+  lha_main mktime junk localtime now stdin_kind strerror argv stdin s = Ok r ->
+  (exists e, is_dash file = false /\ fs_fopen_rb s file = OpenFail e /\
+             cr_stdout r = [] /\ cr_stderr r = open_error_text strerror file e) \/
+  (exists src items r',
+     archive_source stdin_kind s stdin file = Some src /\
+     print_chain mktime junk (lha_filter_init filters) (lha_reader_new (lha_input_stream_new src)) items r' /\
+     cr_stdout r = print_text o items /\ cr_stderr r = [] /\ cr_exit r = 0).
+Proof. exact lha_main_print_factor. Qed.
+
+(* the member list of the factorisation is determined by the archive source *)
+Theorem print_mode_members_unique : forall mktime junk f r items r' items2 r2,
+  print_chain mktime junk f r items r' -> print_chain mktime junk f r items2 r2 -> items = items2 /\ r' = r2.
+Proof. intros. eapply print_chain_det; eauto. Qed.
+
+Theorem print_mode_banner_allowed : forall o h, Forall allowed (banner o h).
+Proof. exact banner_allowed. Qed.
+
+Theorem print_mode_blocks : forall o items, banner_data_blocks (print_text o items) (map snd items).
+Proof. exact print_text_blocks. Qed.
+
+
 Print Assumptions safe_output_allowed.
 Print Assumptions safe_output_id.
 Print Assumptions list_output_clean.
+Print Assumptions whole_tool_output_clean.
+Print Assumptions whole_tool_output_cases.
+Print Assumptions covered_commands.
+Print Assumptions print_mode_factor.
+Print Assumptions print_mode_members_unique.
+Print Assumptions print_mode_banner_allowed.
+Print Assumptions print_mode_blocks.
